@@ -168,7 +168,38 @@ def explore(ctx):
                 if res.startswith('other'):
                     ctx.violation('load raises {} for {!r} with an attribute annotated {}'.format(res[6:], text, ann),
                                   dict(key='odd:{}:{}'.format(ann, res), classes=src, text=text))
+    hooks_raising_yatiml_errors(ctx, yaml, yatiml)
     LC.correspond(ctx, cases)
+
+
+def hooks_raising_yatiml_errors(ctx, yaml, yatiml):
+    """hand-written hooks that raise yatiml's own exception types, with and without a message, from
+    `_yatiml_recognize` and from `_yatiml_savorize`, at the root, inside a list and inside another class:
+    only RecognitionError may come out"""
+    from typing import List as L_
+    for hook in ('_yatiml_recognize', '_yatiml_savorize'):
+        for exc in ('yatiml.SeasoningError()', "yatiml.SeasoningError('no')", 'yatiml.RecognitionError()',
+                    "yatiml.RecognitionError('no')"):
+            src = ('import yatiml\nclass Inner:\n    def __init__(self, v: int) -> None:\n        self.v = v\n'
+                   '    @classmethod\n    def {}(cls, node) -> None:\n        raise {}\n'
+                   'class Outer:\n    def __init__(self, i: Inner) -> None:\n        self.i = i\n').format(hook, exc)
+            ns = {}
+            exec(src, ns)
+            I, O = ns['Inner'], ns['Outer']
+            for load, text in ((yatiml.load_function(I), '{v: 1}'), (yatiml.load_function(L_[I], I), '[{v: 1}]'),
+                               (yatiml.load_function(O, I), '{i: {v: 1}}')):
+                try:
+                    load(text)
+                    res = 'ok'
+                except (yatiml.RecognitionError, yaml.YAMLError):
+                    res = 'rec'
+                except Exception as e:  # noqa
+                    res = 'other:' + type(e).__name__
+                ctx.case(('hook-raises', hook, exc, text), nontrivial=True)
+                ctx.count('hook_raises_yatiml_error:' + res.split(':')[0])
+                if res.startswith('other'):
+                    ctx.violation('load raises {} when {} raises {}'.format(res[6:], hook, exc),
+                                  dict(key='hook-raises:{}:{}:{}'.format(hook, exc, res), classes=src, text=text))
 
 
 def search(ctx, broken):
